@@ -436,7 +436,7 @@ Proof. unfold gl_mid, half, ndec. cbn. lra. Qed.
 Lemma hw_R a b : gl_hw ROps a b = (b - a) / 2.
 Proof. unfold gl_hw, half, ndec. cbn. lra. Qed.
 Lemma gl_w_R hw zp : gl_w ROps hw zp = hw * wref zp.
-Proof. unfold gl_w, wref, two, one. cbn. unfold Rdiv. ring. Qed.
+Proof. unfold gl_w, wref, two, one. cbn. unfold Rdiv. rewrite ?Rinv_1, ?Rmult_1_r. ring. Qed.
 
 (** row i in closed form over R *)
 Lemma row_R n a b zs i : (1 <= n)%nat -> length zs = gl_m n -> (i < n)%nat ->
@@ -772,7 +772,7 @@ Proof. unfold moment. rewrite pow1. reflexivity. Qed.
 Example ex_lengths : (1 <= 3)%nat /\ length [(3/4, 1); (0, 2)] = gl_m 3.
 Proof. split; [lia|reflexivity]. Qed.
 
-Example ex_assemble_1 : gl_assemble ROps 1 (-1) 1 [(0, 1)] = [(1 / 2 * 1 + 1 / 2 * -1 + (1 / 2 * 1 - 1 / 2 * -1) * 0, IZR 2 * (1 / 2 * 1 - 1 / 2 * -1) / ((1 - 0 * 0) * 1 * 1))].
+Example ex_assemble_1 : gl_assemble ROps 1 (-1) 1 [(0, 1)] = [(1 / 2 * 1 + 1 / 2 * -1 + (1 / 2 * 1 - 1 / 2 * -1) * 0, 2 / 1 * (1 / 2 * 1 - 1 / 2 * -1) / ((1 / 1 - 0 * 0) * 1 * 1))].
 Proof. reflexivity. Qed.
 
 (** the one-point rule {(0, 2)} has exact moments 0 and 1 on [-1,1] *)
